@@ -91,6 +91,14 @@ type W interface {
 
 	//shoot: Get("/u/{id}/{name}")
 	Rescan(ctx context.Context, id string, name string) (*http.Response, error)
+}
+'''
+
+W_MAPS = '''package wmaps
+
+''' + IMPORTS + '''
+type M interface {
+	shoot.RestClient[M]
 
 	//shoot: Get("/maps")
 	TwoMaps(ctx context.Context, a map[string]string, b map[string]string) (*http.Response, error)
@@ -125,6 +133,12 @@ def _s(name):
     return {"name": name, "kind": "scalar", "ptr": False, "gotype": "string"}
 
 
+WMAPS_PKG = {"name": "wmaps", "qpkg": None, "ifaces": [], "structs": []}
+WMAPS_CALLS = [
+    ("K_rest_two_maps", _m("TwoMaps", [{"name": "a", "kind": "map", "ptr": False, "maptype": "string"},
+                                       {"name": "b", "kind": "map", "ptr": False, "maptype": "string"}]),
+     {"a": ("map", [("ka", ("str", "1"))]), "b": ("map", [("kb", ("str", "2"))])}),
+]
 WRUN_CALLS = [
     ("K_rest_nil_struct_ptr", _m("NilPtr", [{"name": "req", "kind": "struct", "ptr": True, "struct": "Req0", "qual": False}]),
      {"req": ("struct", None, True)}),
@@ -132,9 +146,6 @@ WRUN_CALLS = [
      {"req": ("struct", {"Name": ("str", "zed")}, False)}),
     ("K_rest_path_percent", _m("Percent", [_s("id")]), {"id": ("str", "50%")}),
     ("K_rest_subst_rescan", _m("Rescan", [_s("id"), _s("name")]), {"id": ("str", "{name}"), "name": ("str", "nm")}),
-    ("K_rest_two_maps", _m("TwoMaps", [{"name": "a", "kind": "map", "ptr": False, "maptype": "string"},
-                                       {"name": "b", "kind": "map", "ptr": False, "maptype": "string"}]),
-     {"a": ("map", [("ka", ("str", "1"))]), "b": ("map", [("kb", ("str", "2"))])}),
 ]
 
 
@@ -145,6 +156,7 @@ def witness_packages(modname):
         "wpmap": {"files": {"wpmap/wpmap.go": W_PMAP}, "type": "PtrMap"},
         "wdup": {"files": {"wdup/wdup.go": W_DUP}, "type": "Dup"},
         "wrun": {"files": {"wrun/wrun.go": W_RUN, "wrun/other.go": W_RUN_OTHER}, "type": "W"},
+        "wmaps": {"files": {"wmaps/wmaps.go": W_MAPS}, "type": "M"},
     }
 
 
@@ -183,15 +195,17 @@ def run_witnesses(run, shoot, mod, wit, sem):
 
 
 def witness_cases(wit, st, first_client, first_id):
-    """calls of the wrun witnesses for the driver (only if shoot produced the client)"""
-    if st["wrun"]["shoot"]["rc"] != 0:
-        return [], []
-    var = "cw%d" % first_client
-    clients = [(var, "wrun", "W", "")]
-    cases = []
-    for k, (kid, m, args) in enumerate(WRUN_CALLS):
-        cases.append({"id": first_id + k, "client": var, "base": "", "pkg": WRUN_PKG, "iface": {"name": "W"}, "method": m,
-                      "args": dict(args, ctx=("ctx", first_id + k, False)), "finding": kid})
+    """calls of the runtime witnesses for the driver (a package only if shoot produced its client)"""
+    clients, cases = [], []
+    for pname, iname, pkg, calls in (("wrun", "W", WRUN_PKG, WRUN_CALLS), ("wmaps", "M", WMAPS_PKG, WMAPS_CALLS)):
+        if st[pname]["shoot"]["rc"] != 0:
+            continue
+        var = "cw%d" % (first_client + len(clients))
+        clients.append((var, pname, iname, ""))
+        for kid, m, args in calls:
+            cid = first_id + len(cases)
+            cases.append({"id": cid, "client": var, "base": "", "pkg": pkg, "iface": {"name": iname}, "method": m,
+                          "args": dict(args, ctx=("ctx", cid, False)), "finding": kid})
     return clients, cases
 
 
@@ -277,6 +291,11 @@ def handlers(run, shoot, mod, wit, st, wcases, wobs):
         return "other: Accept = %s" % acc
 
     def two_maps(entry):
+        r = st["wmaps"]["shoot"]
+        if r["rc"] != 0:
+            if r["timed_out"] or r["panicked"]:
+                return "other: shoot %s" % r["err"][-300:]
+            return "correct"          # the second map is refused with a diagnostic
         o = need("K_rest_two_maps")
         if o["out"] == "sent" and o["query"] == [["kb", "2"]]:
             return "buggy"
